@@ -68,11 +68,13 @@ RECSTART_R = {"<start>": ["a<start>", "b"]}
 RECSTART_L = {"<start>": ["<start>a", "b", ""]}
 RECSTART_M = {"<start>": ["(<start>)<start>", "<A>"], "<A>": ["x", ""]}
 
+QUOTED = {"<start>": ["<item>", "<item>,<start>"], "<item>": ["\"<var>\"", "(<var>)", "'<var>'"], "<var>": ["a", "b", "\\"]}
+
 GRAMMARS = {
     "ASSGN": ASSGN, "ASSGN2": ASSGN2, "XMLISH": XMLISH, "NUM": NUM, "NULLABLE": NULLABLE,
     "AMBIG": AMBIG, "LEFTREC": LEFTREC, "RIGHTREC": RIGHTREC, "MULTICHAR": MULTICHAR,
     "CSVISH": CSVISH, "TWOSTART": TWOSTART, "LENGTHS": LENGTHS,
-    "RECSTART_R": RECSTART_R, "RECSTART_L": RECSTART_L, "RECSTART_M": RECSTART_M,
+    "QUOTED": QUOTED, "RECSTART_R": RECSTART_R, "RECSTART_L": RECSTART_L, "RECSTART_M": RECSTART_M,
 }
 
 
@@ -172,6 +174,12 @@ def hand_formulas(name):
         add("wide", COUNT("start", "<d>", 40))
         add("wide", EX("<d>", "x", EX("<d>", "y", AND(PRED("before", "x", "y"), lit("x", "1"), lit("y", "1")))))
         add("wide", EX("<row>", "r", EX("<d>", "x", AND(PRED("nth", 30, "x", "r"), lit("x", "1")), inn="r")))
+    if name == "QUOTED":
+        add("mexpr-quote", FA("<item>", "i", lit("v", "a"), mexpr=M(MCH('"'), MNT("<var>", "v"), MCH('"'))))
+        add("mexpr-quote", EX("<item>", "i", lit("v", "\\"), mexpr=M(MCH("'"), MNT("<var>", "v"), MCH("'"))))
+        add("mexpr-quote", EX("<item>", "i", SMT(A("=", V("i"), S('"b"'))), mexpr=M(MCH('"'), MNT("<var>"), MCH('"'))))
+        add("plain", FA("<var>", "v", NOT(lit("v", "\\"))))
+        add("plain", EX("<item>", "i", SMT(A("str.contains", V("i"), S('"')))))
     if name == "CSVISH":
         add("count", FA("<row>", "r", EX("<row>", "q", OR(PRED("same_position", "r", "q"), PRED("inside", "r", "q"), PRED("inside", "q", "r"), TRUE))))
         add("numeric-exists-count", EXI("n", FA("<row>", "r", OR(COUNT("r", "<field>", "n"), EX("<row>", "q", AND(PRED("inside", "r", "q"), NOT(PRED("same_position", "r", "q"))))))))
